@@ -144,6 +144,30 @@ def rule_r3(facts, col):
             col.ok("C18.R3", key, body.where(um[0][0]), "munmap(self.base, self.len) on every path")
 
 
+def _is_null_ptr(e):
+    p = peel(e, through_try=False)
+    while p is not None and p.k == "cast":
+        p = peel(p.a, through_try=False)
+    if p is None:
+        return False
+    if p.k == "call" and (p.q or "").split("::")[-1] in ("null_mut", "null"):
+        return True
+    return p.k == "const" and p.v == 0
+
+
+def mapping_calls(body):
+    """(first, second): the calls creating the initial (kernel-placed) mapping - Map::new or Map::with_addr(.., null) - and
+    the fixed re-mappings - Map::with_addr(.., non-null)"""
+    first = [(bb, t) for bb, t in body.calls_to("circular_buffer::Map::new")]
+    second = []
+    for bb, t in body.calls_to("circular_buffer::Map::with_addr"):
+        if len(t["args"]) >= 3 and _is_null_ptr(body.operand_expr(t["args"][2])):
+            first.append((bb, t))
+        else:
+            second.append((bb, t))
+    return first, second
+
+
 def rule_r4(facts, col):
     """Circ::new: first map shrunk to the half size after the fixed re-map; both Maps owned by Circ"""
     for body in facts.bodies:
@@ -155,8 +179,7 @@ def rule_r4(facts, col):
         if not aggs:
             continue
         key = body.q
-        fixed = [(bb, t) for bb, t in body.calls_to("circular_buffer::Map::with_addr")]
-        first = [(bb, t) for bb, t in body.calls_to("circular_buffer::Map::new")]
+        first, fixed = mapping_calls(body)
         if not fixed or not first:
             col.bad("C18.R4", key, body.where(), "Circ is not built from Map::new + Map::with_addr (double mapping)", {})
             continue
@@ -278,9 +301,8 @@ def rule_r8(facts, col):
         key = body.q + ":period"
         probs = []
         n = 0
-        for bb, t in body.calls():
-            q = t["f"].get("q") or ""
-            if q.endswith("Map::with_addr") and len(t["args"]) >= 3:
+        for bb, t in mapping_calls(body)[1]:
+            if len(t["args"]) >= 3:
                 n += 1
                 ln = _strip_casts(body.operand_expr(t["args"][1]))
                 if not (ln.k == "param" and ln.idx == 1):
